@@ -818,14 +818,17 @@ Lemma pool_destroy_inv v uid nextId :
   | OK _ => VamInvU c (mkVam (v_m v') (v_global v') (v_lists v') (v_ded v') (v_pools v') nextId (v_next_uid v') (v_tab v')) [] [] /\
             tab_frame v v' [] /\ find_pool (v_pools v') uid = None /\
             map p_id (v_pools v') = map p_id (remove_pool (v_pools v) uid)
-  | ER _ => v' = v
+  | ER _ => v' = v /\ exists p, find_pool (v_pools v) uid = Some p /\
+              (p_ded p <> [] \/ exists b, In b (bl_blocks (p_list p)) /\ meta_is_empty (bk_meta b) = false)
   | _ => True
   end.
 Proof.
   intros HI Hids. unfold pool_destroy. destruct (find_pool (v_pools v) uid) as [p|] eqn:Hf; [|exact I].
-  destruct (p_ded p) as [|x tl] eqn:Hded; [|reflexivity].
+  destruct (p_ded p) as [|x tl] eqn:Hded; [|split; [reflexivity|]; exists p; split; [auto|]; left; rewrite Hded; discriminate].
   pose proof (bl_destroy_inv c v [] [] (LPool uid) HI) as BD.
   destruct (bl_destroy c v (LPool uid)) as (v1 & r). destruct r as [[]|code| |]; auto.
+  2:{ destruct BD as (-> & l & b & G & B & E). split; [reflexivity|]. exists p. split; [auto|]. right. exists b.
+      cbn in G. rewrite Hf in G. injection G as <-. auto. }
   destruct BD as ((I1 & T1 & L1) & (l' & G1 & E1)).
   destruct (get_blist_pool _ _ _ G1) as (p1 & Hf1 & Hl1).
   assert (Hd1 : p_ded p1 = []).
@@ -869,5 +872,317 @@ Proof.
   destruct (meta_live (bk_meta b)) as [|rg tl] eqn:El; [reflexivity|]. exfalso.
   destruct (vi_tags _ _ _ _ HI _ _ _ rg Hg Hb ltac:(rewrite El; left; reflexivity)) as (s & a & _ & S & _ & L & _).
   eapply Hno; eauto.
+Qed.
+
+Lemma vam_eta v : mkVam (v_m v) (v_global v) (v_lists v) (v_ded v) (v_pools v) (v_next_pool_id v) (v_next_uid v) (v_tab v) = v.
+Proof. destruct v; reflexivity. Qed.
+
+Lemma rmpool_inv v uid :
+  VamInvU c v [] [] ->
+  let '(v', r) := pool_destroy c v uid in
+  match r with PANIC | STUCK => True | _ => VamInvU c v' [] [] /\ tab_frame v v' [] end.
+Proof.
+  intros HI.
+  assert (Hids : Forall (fun q => p_id q < v_next_pool_id v) (remove_pool (v_pools v) uid)).
+  { apply Forall_forall. intros q Hq. destruct (vi_pools_id _ _ _ _ HI) as (_ & Hf). rewrite Forall_forall in Hf. apply Hf.
+    eapply in_remove_pool; eauto. }
+  pose proof (pool_destroy_inv v uid (v_next_pool_id v) HI Hids) as P.
+  destruct (pool_destroy c v uid) as (v' & r) eqn:E. destruct r as [[]|code| |]; auto.
+  - destruct P as (I1 & T1 & _ & _).
+    assert (En : v_next_pool_id v' = v_next_pool_id v).
+    { unfold pool_destroy in E. destruct (find_pool (v_pools v) uid) as [p|]; [|discriminate]. destruct (p_ded p); [|discriminate].
+      pose proof (bl_destroy_inv c v [] [] (LPool uid) HI) as BD. destruct (bl_destroy c v (LPool uid)) as (v1 & r1).
+      destruct r1 as [[]|code| |]; try discriminate. injection E as <-. cbn. destruct BD as ((_ & _ & L) & _). apply (lf_next _ _ L). }
+    rewrite <- En, vam_eta in I1. auto.
+  - destruct P as (-> & _). split; [auto|apply tab_frame_refl].
+Qed.
+
+Lemma create_pool_inv v ty flags blockSize minB maxB0 minAlign :
+  VamInvU c v [] [] ->
+  let '(v', r) := create_pool c v ty flags blockSize minB maxB0 minAlign in
+  match r with PANIC | STUCK => True | _ => VamInvU c v' [] [] /\ tab_frame v v' [] end.
+Proof.
+  intros HI. unfold create_pool.
+  assert (Hrefl : VamInvU c v [] [] /\ tab_frame v v []) by (split; [auto|apply tab_frame_refl]).
+  destruct (_ <? minB); [exact Hrefl|]. destruct ((ty <? 0) || (ntypes c <=? ty)) eqn:Ety; [exact Hrefl|].
+  destruct (negb (N.testbit _ _)); [exact Hrefl|]. destruct ((0 <? minAlign) && negb (is_pow2_or_zero minAlign)) eqn:Eal; [exact Hrefl|].
+  set (bs := if blockSize =? 0 then preferred_block_size c ty else blockSize).
+  set (al := if type_min_alignment c ty <? minAlign then minAlign else type_min_alignment c ty).
+  set (gr := if Z.testbit flags 0 then 1 else eff_granularity c).
+  set (l := mkBlist ty bs minB (if maxB0 =? 0 then MAXINT else maxB0) gr (negb (blockSize =? 0)) (Z.land flags 2) al [] 0 true).
+  set (uid := v_next_uid v).
+  assert (Hwf : blist_wf c l).
+  { constructor; cbn; try constructor; try lia.
+    - unfold type_valid. apply orb_false_iff in Ety. destruct Ety as (E1 & E2). apply Z.ltb_ge in E1. apply Z.leb_gt in E2.
+      apply andb_true_iff. split; [apply Z.leb_le; lia|apply Z.ltb_lt; lia].
+    - unfold al. pose proof (type_min_alignment_pow2 ty) as Ht. destruct (type_min_alignment c ty <? minAlign) eqn:E; [|auto].
+      apply Z.ltb_lt in E. pose proof (Bits.pow2_pos _ Ht). apply andb_false_iff in Eal. destruct Eal as [Eal|Eal].
+      + apply Z.ltb_ge in Eal. lia.
+      + apply negb_false_iff in Eal. destruct (pow2_or_zero_spec _ Eal); [lia|auto].
+    - unfold gr. destruct (Z.testbit flags 0); [apply Bits.pow2_1|apply eff_granularity_pow2]. }
+  pose proof (VamInvU_add_pool c v [] [] l HI Hwf eq_refl) as I0. fold uid in I0.
+  set (v0 := mkVam (v_m v) (v_global v) (v_lists v) (v_ded v) (mkPool uid (v_next_pool_id v) l [] :: v_pools v)
+                   (v_next_pool_id v + 1) (uid + 1) (v_tab v)) in *.
+  pose proof (create_min_blocks_inv c Hc (Z.to_nat minB) v0 [] [] (LPool uid) bs I0) as CM.
+  destruct (create_min_blocks c (Z.to_nat minB) v0 (LPool uid) bs) as (v1 & r).
+  destruct CM as (I1 & T1 & L1).
+  assert (T01 : tab_frame v v1 []) by (destruct T1 as (A & B); split; auto).
+  destruct r as [[]|code| |]; auto.
+  (* creation failed: the blocks created so far are released, the pool unlinked, nextPoolId restored *)
+  assert (Hfresh : find_pool (v_pools v) uid = None).
+  { apply find_pool_none_fresh. eapply Forall_impl; [|exact (vi_pools_uid _ _ _ _ HI)]. cbn. intros; lia. }
+  assert (Hu1 : map p_uid (v_pools v1) = uid :: map p_uid (v_pools v)) by (rewrite (lf_uids _ _ L1); reflexivity).
+  assert (Hp1 : map p_id (v_pools v1) = v_next_pool_id v :: map p_id (v_pools v)) by (rewrite (lf_pids _ _ L1); reflexivity).
+  assert (Hrem : map p_id (remove_pool (v_pools v1) uid) = map p_id (v_pools v)).
+  { destruct (v_pools v1) as [|q qs]; cbn in *; [discriminate|]. injection Hu1 as Hq Hu. injection Hp1 as Hq' Hp.
+    rewrite Hq, Z.eqb_refl. exact Hp. }
+  assert (Hids : Forall (fun q => p_id q < v_next_pool_id v) (remove_pool (v_pools v1) uid)).
+  { apply Forall_forall. intros q Hq. assert (In (p_id q) (map p_id (v_pools v))) by (rewrite <- Hrem; apply in_map; auto).
+    apply in_map_iff in H. destruct H as (q0 & E0 & H0). destruct (vi_pools_id _ _ _ _ HI) as (_ & Hf). rewrite Forall_forall in Hf. rewrite <- E0. auto. }
+  pose proof (pool_destroy_inv v1 uid (v_next_pool_id v) I1 Hids) as PD.
+  (* the new pool is not referenced by any Allocation object, so its destruction cannot be refused *)
+  assert (Hnoref : forall s a, slot_is v1 s a -> a_lref a <> LPool uid).
+  { intros s a S E. assert (S0 : slot_is v s a) by (apply (slot_is_frame _ _ _ _ _ T01) in S; auto).
+    destruct (vi_slots _ _ _ _ HI s a S0 (fun H => H)) as [(_ & l2 & _ & _ & G & _)|(_ & _ & (l2 & G & _) & _)];
+      rewrite E in G; cbn in G; rewrite Hfresh in G; discriminate. }
+  destruct (pool_destroy c v1 uid) as (v2 & dr). destruct dr as [[]|dcode| |]; auto.
+  - destruct PD as (I2 & T2 & F2 & _). unfold unlink_pool. rewrite (remove_pool_absent _ _ F2).
+    split; [exact I2|]. eapply tab_frame_trans_same; [exact T01|exact T2].
+  - exfalso. destruct PD as (_ & p1 & Hf1 & [Hd|(b & Hb & He)]).
+    + apply Hd. pose proof (lf_ded _ _ L1 (LPool uid)) as D. cbn in D. rewrite Hf1, Z.eqb_refl in D. exact D.
+    + assert (Hg1 : get_blist v1 (LPool uid) = Some (p_list p1)) by (cbn; rewrite Hf1; reflexivity).
+      rewrite (unreferenced_blocks_empty v1 (LPool uid) (p_list p1) I1 Hg1 Hnoref b Hb) in He. discriminate.
+Qed.
+
+(* ---------------------------------------------------------------- Allocator.Destroy, statistics *)
+
+Definition inv_post (v v' : vam) (r : out unit) : Prop :=
+  match r with PANIC | STUCK => True | _ => VamInvU c v' [] [] /\ tab_frame v v' [] end.
+
+Lemma inv_post_refl v r : VamInvU c v [] [] -> inv_post v v r.
+Proof. intros H. destruct r; cbn; auto; (split; [auto|apply tab_frame_refl]). Qed.
+
+Lemma destroy_lists_inv n : forall v t, VamInvU c v [] [] -> let '(v', r) := destroy_lists c v n t in inv_post v v' r.
+Proof.
+  induction n as [|k IH]; intros v t HI; cbn [destroy_lists]; [apply inv_post_refl; auto|].
+  destruct (get_blist v (LDef t)); [|apply IH; auto].
+  pose proof (bl_destroy_inv c v [] [] (LDef t) HI) as BD.
+  destruct (bl_destroy c v (LDef t)) as (v1 & r). destruct r as [[]|code| |]; auto.
+  - destruct BD as ((I1 & T1 & L1) & _). specialize (IH v1 (t + 1) I1).
+    destruct (destroy_lists c v1 k (t + 1)) as (v2 & r2). destruct r2 as [[]|code| |]; cbn in *; auto;
+      destruct IH as (A & B); (split; [auto|eapply tab_frame_trans_same; eauto]).
+  - destruct BD as (-> & _). cbn. split; [auto|apply tab_frame_refl].
+Qed.
+
+Lemma allocator_destroy_inv v : VamInvU c v [] [] -> let '(v', r) := allocator_destroy c v in inv_post v v' r.
+Proof.
+  intros HI. unfold allocator_destroy. destruct (existsb _ (v_ded v)); [apply inv_post_refl; auto|].
+  destruct (v_pools v); [|apply inv_post_refl; auto]. destruct (existsb list_nonempty _); [apply inv_post_refl; auto|].
+  apply destroy_lists_inv. auto.
+Qed.
+
+Lemma stats_budgets_same n : forall m h, mach_same m (stats_budgets c m n h).
+Proof.
+  induction n as [|k IH]; intros m h; cbn [stats_budgets]; [apply mach_same_refl|].
+  pose proof (heap_budget_same c m h) as H. destruct (heap_budget c m h) as ((m1 & u) & b). cbn [fst] in H.
+  eapply mach_same_trans; [exact H|apply IH].
+Qed.
+
+Lemma build_stats_string_inv v : VamInvU c v [] [] -> let '(v', r) := build_stats_string c v in inv_post v v' r.
+Proof.
+  intros HI. unfold build_stats_string. destruct (calculate_statistics c v); [|exact I].
+  cbn. split; [apply VamInvU_mach_same; [auto|apply stats_budgets_same]|apply tab_frame_set_m].
+Qed.
+
+(* ---------------------------------------------------------------- resources *)
+
+Definition res_post (v v' : vam) (s : Z) (r : out unit) : Prop :=
+  match r with PANIC | STUCK => True | _ => VamInvU c v' [] [] /\ tab_frame v v' [s] end.
+
+Lemma res_post_refl v s r : VamInvU c v [] [] -> res_post v v s r.
+Proof. intros H. destruct r; cbn; auto; (split; [auto|apply tab_frame_refl]). Qed.
+
+Lemma bind_memory_inv v s image res off : VamInvU c v [] [] -> let '(v', r) := bind_memory v s image res off in res_post v v' s r.
+Proof.
+  intros HI. unfold bind_memory. destruct (res =? 0); [apply res_post_refl; auto|]. destruct (negb _); [apply res_post_refl; auto|].
+  match goal with |- context [match ?t with OK _ => _ | ER _ => _ | PANIC => _ | STUCK => _ end] => destruct t as [o|code| |] end;
+    try (apply res_post_refl; auto); try exact I.
+  pose proof (dev_bind_same (v_m v) image res (a_mem (get_alloc v s)) o) as H.
+  destruct (dev_bind (v_m v) image res (a_mem (get_alloc v s)) o) as (m1 & code). cbn [fst] in H.
+  assert (P : VamInvU c (set_m v m1) [] [] /\ tab_frame v (set_m v m1) [s]) by (split; [apply VamInvU_mach_same; auto|apply tab_frame_set_m]).
+  destruct (code =? 0); exact P.
+Qed.
+
+Lemma allocation_free_inv v s :
+  VamInvU c v [] [] -> let '(v', r) := allocation_free c v s in res_post v v' s r.
+Proof.
+  intros HI. unfold allocation_free. destruct (a_allocated (get_alloc v s)) eqn:Ea; cbn [negb]; [|apply res_post_refl; auto].
+  assert (Hnd : NoDup [s]) by (constructor; [intros []|constructor]).
+  assert (Hlive : live_slots v [] [s]) by (intros x [<-|[]]; split; [intros []|exists (get_alloc v s); apply get_alloc_allocated; auto]).
+  pose proof (multi_free_inv [s] v [] HI Hnd Hlive) as P. destruct (multi_free c v [s]) as (v' & r).
+  destruct r as [[]|code| |]; auto; cbn; destruct P as (A & B & C); auto.
+Qed.
+
+Lemma get_requirements_spec m image id :
+  exists m2 rq rd pd, get_requirements c m image id = (m2, rq, rd, pd) /\ mach_same m m2.
+Proof.
+  unfold get_requirements. pose proof (dev_requirements_same m image id) as H.
+  destruct (dev_requirements m image id) as (m2 & rq). cbn [fst] in H. destruct (11 <=? c_api c); eauto 10.
+Qed.
+
+Lemma create_resource_inv v s image kind sub devreq resusage minAlign usage flags req pref ctb pool :
+  VamInvU c v [] [] -> 0 <= s < zlen (v_tab v) -> a_allocated (get_alloc v s) = false ->
+  let '(v', r) := create_resource c v s image kind sub devreq resusage minAlign usage flags req pref ctb pool in res_post v v' s r.
+Proof.
+  intros HI Hr Hd. unfold create_resource.
+  pose proof (dev_create_res_same (v_m v) image kind devreq) as H1.
+  destruct (dev_create_res (v_m v) image kind devreq) as ((m1 & code) & id). cbn [fst] in H1.
+  destruct (negb (code =? 0)); [cbn; split; [apply VamInvU_mach_same; auto|apply tab_frame_set_m]|].
+  destruct (get_requirements_spec m1 image id) as (m2 & rq & rd & pd & Egr & H2). rewrite Egr.
+  pose proof (mach_same_trans _ _ _ H1 H2) as H12.
+  assert (I2 : VamInvU c (set_m v m2) [] []) by (apply VamInvU_mach_same; auto).
+  assert (Hnd : NoDup [s]) by (constructor; [intros []|constructor]).
+  assert (Hdead : dead_slots (set_m v m2) [s]) by (intros x [<-|[]]; auto).
+  match goal with |- context [multi_allocate c (set_m v m2) ?a1 ?a2 ?a3 ?a4 ?a5 ?a6 ?a7 usage flags req pref ctb pool sub [s]] =>
+    pose proof (multi_allocate_inv (set_m v m2) [] a1 a2 a3 a4 a5 a6 a7 usage flags req pref ctb pool sub [s] I2 Hnd Hdead) as MA;
+    destruct (multi_allocate c (set_m v m2) a1 a2 a3 a4 a5 a6 a7 usage flags req pref ctb pool sub [s]) as (v3 & r) end.
+  destruct r as [[]|acode| |]; auto.
+  - destruct MA as (I3 & T3 & L3 & D3).
+    assert (T03 : tab_frame v v3 [s]) by (eapply tab_frame_trans_same; [apply tab_frame_set_m|exact T3]).
+    destruct (fl flags F_DONTBIND); [cbn; auto|].
+    pose proof (bind_memory_inv v3 s image id 0 I3) as B. destruct (bind_memory v3 s image id 0) as (v4 & br).
+    destruct br as [[]|bcode| |]; auto.
+    + cbn in *. destruct B as (A & B). split; [auto|eapply tab_frame_trans_same; eauto].
+    + destruct B as (I4 & T4).
+      assert (Hfree : let '(v5, fr) := (if a_allocated (get_alloc v4 s) then multi_free c v4 [s] else (v4, OK tt)) in
+                      match fr with PANIC | STUCK => True | _ => VamInvU c v5 [] [] /\ tab_frame v4 v5 [s] end).
+      { destruct (a_allocated (get_alloc v4 s)) eqn:Ea; [|split; [auto|apply tab_frame_refl]].
+        assert (Hlive : live_slots v4 [] [s]) by (intros x [<-|[]]; split; [intros []|exists (get_alloc v4 s); apply get_alloc_allocated; auto]).
+        pose proof (multi_free_inv [s] v4 [] I4 Hnd Hlive) as P. destruct (multi_free c v4 [s]) as (v5 & fr).
+        destruct fr as [[]|code5| |]; auto; destruct P as (A & B & C); auto. }
+      destruct (if a_allocated (get_alloc v4 s) then multi_free c v4 [s] else (v4, OK tt)) as (v5 & fr).
+      destruct fr as [[]|code5| |]; auto; destruct Hfree as (I5 & T5); cbn;
+        (split; [apply VamInvU_mach_same; [auto|apply dev_destroy_res_same]|];
+         eapply tab_frame_trans_same; [exact T03|]; eapply tab_frame_trans_same; [exact T4|]; eapply tab_frame_trans_same; [exact T5|apply tab_frame_set_m]).
+  - destruct MA as (I3 & T3 & L3 & D3). cbn. split; [apply VamInvU_mach_same; [auto|apply dev_destroy_res_same]|].
+    eapply tab_frame_trans_same; [apply tab_frame_set_m|]. eapply tab_frame_trans_same; [exact T3|apply tab_frame_set_m].
+Qed.
+
+Lemma res_post_of_alloc v v' s r : alloc_post v v' [] [s] r -> res_post v v' s r.
+Proof. destruct r as [[]|code| |]; cbn; auto; intros (A & B & _); auto. Qed.
+
+Lemma allocate_for_resource_inv v s image res usage flags req pref ctb pool :
+  VamInvU c v [] [] -> 0 <= s < zlen (v_tab v) ->
+  let '(v', r) := allocate_for_resource c v s image res usage flags req pref ctb pool in res_post v v' s r.
+Proof.
+  intros HI Hr. unfold allocate_for_resource. destruct (res =? 0); [apply res_post_refl; auto|].
+  destruct (a_allocated (get_alloc v s)) eqn:Ea; [apply res_post_refl; auto|].
+  destruct (get_requirements_spec (v_m v) image res) as (m2 & rq & rd & pd & Egr & H2). rewrite Egr.
+  assert (I2 : VamInvU c (set_m v m2) [] []) by (apply VamInvU_mach_same; auto).
+  assert (Hnd : NoDup [s]) by (constructor; [intros []|constructor]).
+  assert (Hdead : dead_slots (set_m v m2) [s]) by (intros x [<-|[]]; auto).
+  match goal with |- context [multi_allocate c (set_m v m2) ?a1 ?a2 ?a3 ?a4 ?a5 ?a6 ?a7 usage flags req pref ctb pool ?sb [s]] =>
+    pose proof (multi_allocate_inv (set_m v m2) [] a1 a2 a3 a4 a5 a6 a7 usage flags req pref ctb pool sb [s] I2 Hnd Hdead) as MA;
+    destruct (multi_allocate c (set_m v m2) a1 a2 a3 a4 a5 a6 a7 usage flags req pref ctb pool sb [s]) as (v3 & r) end.
+  apply res_post_of_alloc in MA. destruct r as [[]|code| |]; cbn in *; auto; destruct MA as (A & B);
+    (split; [auto|eapply tab_frame_trans_same; [apply tab_frame_set_m|exact B]]).
+Qed.
+
+Lemma create_buffer_inv v s size devreq bufUsage minAlign usage flags req pref ctb pool :
+  VamInvU c v [] [] -> 0 <= s < zlen (v_tab v) ->
+  let '(v', r) := create_buffer c v s size devreq bufUsage minAlign usage flags req pref ctb pool in res_post v v' s r.
+Proof.
+  intros HI Hr. unfold create_buffer. destruct (a_allocated (get_alloc v s)) eqn:Ea; [apply res_post_refl; auto|].
+  destruct (_ && _); [apply res_post_refl; auto|]. destruct (size =? 0); [apply res_post_refl; auto|].
+  destruct (_ && _); [apply res_post_refl; auto|]. apply create_resource_inv; auto.
+Qed.
+
+Lemma create_image_inv v s tiling width devreq imgUsage usage flags req pref ctb pool :
+  VamInvU c v [] [] -> 0 <= s < zlen (v_tab v) ->
+  let '(v', r) := create_image c v s tiling width devreq imgUsage usage flags req pref ctb pool in res_post v v' s r.
+Proof.
+  intros HI Hr. unfold create_image. destruct (a_allocated (get_alloc v s)) eqn:Ea; [apply res_post_refl; auto|].
+  destruct (width =? 0); [apply res_post_refl; auto|]. apply create_resource_inv; auto.
+Qed.
+
+Lemma destroy_with_resource_inv v s image res :
+  VamInvU c v [] [] -> let '(v', r) := destroy_with_resource c v s image res in res_post v v' s r.
+Proof.
+  intros HI. unfold destroy_with_resource.
+  set (v1 := if res =? 0 then v else set_m v (dev_destroy_res (v_m v) image res)).
+  assert (I1 : VamInvU c v1 [] [] /\ tab_frame v v1 [s]).
+  { unfold v1. destruct (res =? 0); [split; [auto|apply tab_frame_refl]|].
+    split; [apply VamInvU_mach_same; [auto|apply dev_destroy_res_same]|apply tab_frame_set_m]. }
+  pose proof (allocation_free_inv v1 s (proj1 I1)) as F. destruct (allocation_free c v1 s) as (v2 & r).
+  destruct r as [[]|code| |]; cbn in *; auto; destruct F as (A & B); (split; [auto|eapply tab_frame_trans_same; [apply I1|exact B]]).
+Qed.
+
+(* ---------------------------------------------------------------- vam.New *)
+
+Lemma init_lists_spec global n : forall i t l,
+  nth_z (init_lists c global n i) t = Some (Some l) ->
+  0 <= t < Z.of_nat n /\
+  l = mkBlist (i + t) (preferred_block_size c (i + t)) 0 MAXINT (eff_granularity c) false 0 (type_min_alignment c (i + t)) [] 0 true.
+Proof.
+  induction n as [|k IH]; intros i t l; cbn [init_lists].
+  - unfold nth_z. destruct (t <? 0); [discriminate|]. destruct (Z.to_nat t); discriminate.
+  - unfold nth_z. destruct (t <? 0) eqn:Et; [discriminate|]. apply Z.ltb_ge in Et.
+    destruct (Z.to_nat t) as [|m] eqn:Em.
+    + assert (t = 0) by lia. subst t. cbn. destruct (N.testbit _ _); [|discriminate]. intros H. injection H as <-.
+      rewrite Z.add_0_r. split; [lia|reflexivity].
+    + cbn. intros H. assert (Hm : nth_z (init_lists c global k (i + 1)) (t - 1) = Some (Some l)).
+      { unfold nth_z. destruct (t - 1 <? 0) eqn:E; [lia|]. replace (Z.to_nat (t - 1)) with m by lia. exact H. }
+      destruct (IH _ _ _ Hm) as (Hr & ->). split; [lia|]. replace (i + 1 + (t - 1)) with (i + t) by lia. reflexivity.
+Qed.
+
+Lemma init_lists_length global n i : length (init_lists c global n i) = n.
+Proof. revert i. induction n as [|k IH]; intros i; cbn; auto. Qed.
+
+Lemma vam_new_inv nslots v : vam_new c nslots = OK v -> VamInvU c v [] [].
+Proof.
+  unfold vam_new. destruct (negb _); [discriminate|]. destruct (negb _); [discriminate|]. intros H. injection H as <-.
+  assert (Hnoslot : forall s a, ~ slot_is (mkVam (set_bud (mkMach [] 0 no_fault 0 Budget.bzero [] [] 0) (Budget.binit (bcfg_of c) (dev_report c (mkMach [] 0 no_fault 0 Budget.bzero [] [] 0))))
+                     (Select.global_bits false (types_n c)) (init_lists c (Select.global_bits false (types_n c)) (length (c_types c)) 0)
+                     (repeat [] (length (c_types c))) [] 0 1 (repeat alloc_zero nslots)) s a).
+  { intros s a (H & Ha). cbn in H. apply nth_z_in in H. apply repeat_spec in H. subst a. cbn in Ha. discriminate. }
+  assert (Hlist : forall lr l, get_blist (mkVam (set_bud (mkMach [] 0 no_fault 0 Budget.bzero [] [] 0) (Budget.binit (bcfg_of c) (dev_report c (mkMach [] 0 no_fault 0 Budget.bzero [] [] 0))))
+                     (Select.global_bits false (types_n c)) (init_lists c (Select.global_bits false (types_n c)) (length (c_types c)) 0)
+                     (repeat [] (length (c_types c))) [] 0 1 (repeat alloc_zero nslots)) lr = Some l ->
+                   exists t, lr = LDef t /\ 0 <= t < Z.of_nat (length (c_types c)) /\
+                     l = mkBlist t (preferred_block_size c t) 0 MAXINT (eff_granularity c) false 0 (type_min_alignment c t) [] 0 true).
+  { intros [t|u] l H; cbn in H; [|discriminate].
+    destruct (nth_z _ t) as [[x|]|] eqn:E; try discriminate. injection H as <-.
+    destruct (init_lists_spec _ _ _ _ _ E) as (Hr & ->). exists t. split; [auto|]. split; [auto|]. reflexivity. }
+  assert (Hded : forall lr, get_dedlist (mkVam (set_bud (mkMach [] 0 no_fault 0 Budget.bzero [] [] 0) (Budget.binit (bcfg_of c) (dev_report c (mkMach [] 0 no_fault 0 Budget.bzero [] [] 0))))
+                     (Select.global_bits false (types_n c)) (init_lists c (Select.global_bits false (types_n c)) (length (c_types c)) 0)
+                     (repeat [] (length (c_types c))) [] 0 1 (repeat alloc_zero nslots)) lr = []).
+  { intros [t|u]; cbn; [|reflexivity]. destruct (nth_z _ t) as [x|] eqn:E; [|reflexivity]. apply nth_z_in in E. apply repeat_spec in E. auto. }
+  constructor; cbn [v_lists v_ded v_pools v_next_uid v_next_pool_id v_m v_tab m_mems set_bud m_next].
+  - apply init_lists_length.
+  - apply repeat_length.
+  - intros t l H. destruct (Hlist _ _ H) as (t' & E & _ & ->). injection E as ->. reflexivity.
+  - intros lr l H. destruct (Hlist _ _ H) as (t & _ & Hr & ->). constructor; cbn; try constructor; try lia.
+    + unfold type_valid, ntypes, zlen. apply andb_true_iff. split; [apply Z.leb_le; lia|apply Z.ltb_lt; lia].
+    + apply type_min_alignment_pow2.
+    + apply eff_granularity_pow2.
+  - constructor.
+  - constructor.
+  - split; constructor.
+  - constructor.
+  - constructor.
+  - intros lr l b H Hb. destruct (Hlist _ _ H) as (t & _ & _ & ->). destruct Hb.
+  - intros lr1 l1 b1 lr2 l2 b2 H1 B1. destruct (Hlist _ _ H1) as (t & _ & _ & ->). destruct B1.
+  - intros s a lr l b S. exfalso. eapply Hnoslot; eauto.
+  - intros s1 a1 s2 a2 S. exfalso. eapply Hnoslot; eauto.
+  - intros d [].
+  - intros s a S. exfalso. eapply Hnoslot; eauto.
+  - intros lr l b rg H Hb. destruct (Hlist _ _ H) as (t & _ & _ & ->). destruct Hb.
+  - intros lr s. rewrite Hded. intros [].
+  - intros lr. rewrite Hded. constructor.
+  - intros s [].
+  - intros s [].
+  - intros s lr l b rg [].
+  - lia.
+  - constructor.
 Qed.
 End WithCfg.
